@@ -156,6 +156,17 @@ theorem formatted_doub_in_file (a : EclFmt.FArr) (scis : List FmtReal.Sci) (hs :
       toks.map FmtReal.tokenNumber = scis.map FmtReal.sciNumber :=
   FmtReal.doub_entry_numbers a scis hs ht hf rest pos
 
+/-- … and for a REAL array inside a file. -/
+theorem formatted_real_in_file (a : EclFmt.FArr) (scis : List FmtReal.Sci)
+    (hs : ∀ s ∈ scis, FmtReal.SciOk 7 s ∧ s.exp.natAbs < 98)
+    (ht : a.t = .real) (hf : a.fields = scis.map fun s => FmtReal.realField (FmtReal.eclReal s))
+    (rest : List EclFmt.FArr) (pos : Nat) :
+    ∃ toks, EclFmt.loadEntry ⟨a.name, (a.size : Int), a.t,
+        EclFmt.padTo (a.body.length + 1) ((a.body ++ EclFmt.encodeFmtFile rest).take (a.body.length + 1)), pos⟩ =
+          some (.toks toks) ∧
+      toks.map FmtReal.tokenNumber = scis.map FmtReal.sciNumberReal :=
+  FmtReal.real_entry_numbers a scis hs ht hf rest pos
+
 /-- IX flavour (`set_ix()`): the column holds the `snprintf` text itself (`d0.d1…dp E±xx`), for
 REAL (`p = 7`) and DOUB (`p = 13`); the number `strtod` recognises in the reader's token is the
 printed one. -/
